@@ -84,6 +84,12 @@ def _report_diff(ctx, q, fn, got, exp, what, names=None):
                 ctx.violate(q, '%s, %s: hashes each output as %s but Transaction.raw serializes an output as %s' % (what, fname, show(body)[:120], show(sib['output'])[:120]), fn,
                             'the signature commits to bytes that differ from the broadcast transaction whenever the two expressions differ (e.g. non-minimal pushes)')
                 return False
+    for part in gm:
+        for s_ in subterms(part):
+            if isinstance(s_, tuple) and s_[0] == 'after-loop':
+                ctx.violate(q, '%s, %s: reads the variable %r left over from the loop over %s (its last element, whatever is being signed); consensus requires %s' % (
+                    what, fname, s_[3], show(s_[1]), es), fn, 'every input but the last one is signed over the wrong value whenever the elements differ')
+                return False
     if op:
         ctx.undecided('%s: %s is built by %s which the layout model cannot interpret' % (what, fname, show(op[0])[:80]))
     ctx.violate(q, '%s, %s: serialized as %s; consensus requires %s' % (what, fname, gs, es), fn,
@@ -371,18 +377,15 @@ def storage(ctx):
     ctx.require(normalize(kw.get('output_n')) == ('rev', ('read', ('binop', '+', p0, 32), 4)), q, 'output_n parsed as %s, expected the 4 wire bytes reversed (big-endian storage)' % show(normalize(kw.get('output_n'))), fn)
     q = 'transactions:Transaction.__init__'
     fn = repo.func(q)
-    vnode = [n for n in walk_no_nested(fn) if isinstance(n, ast.If) and 'isinstance(version, int)' in unparse(n.test)]
-    if not vnode:
-        ctx.undecided('Transaction.__init__: version normalisation not found')
-    it = Interp(repo, 'transactions', hooks=LAYOUT_HOOKS, self_cls='transactions:Transaction')
+    from .common_txinit import stored_version
     for isint in (True, False):
-        st = State(env={'version': S(('var', 'version'), 'int' if isint else 'bytes'), 'self': S(SELF)})
-        it.decide = lambda t, b=isint: b if isinstance(t, tuple) and t[0] == 'isinstance' else None
-        it.frames.append([])
-        end = it.exec_if(vnode[0], st)
-        v = term(end.heap.get(A(SELF, 'version')))
-        ctx.saw('Transaction.version (%s given) = %s' % ('int' if isint else 'bytes', show(v)))
-        ctx.require(v == (('int2bytes', ('var', 'version'), 4, 'big') if isint else ('var', 'version')), q, 'version stored as %s, the serializers assume 4 bytes big-endian' % show(v), fn)
+        vt = ('var', 'version') if isint else ('read', ('var', 'pos'), 4)
+        v, vi, stmts = stored_version(ctx, vt, isint)
+        ctx.saw('Transaction.version (%s given) = %s ; version_int = %s' % ('int' if isint else '4 wire bytes', show(v), show(vi)))
+        ctx.require(v == (('int2bytes', vt, 4, 'big') if isint else vt), q, 'version (%s given) is stored as %s, the serializers assume the 4 bytes big-endian%s' % (
+            'int' if isint else 'bytes', show(v)[:200], '' if isint else ' exactly as given'), stmts[0],
+            'the digest and the serialization carry another version than the transaction that was parsed (e.g. version 0 silently becomes 1)')
+        ctx.require(vi == (vt if isint else ('bytes2int', vt, 'big')), q, 'version_int (%s given) is %s' % ('int' if isint else 'bytes', show(vi)[:200]), stmts[0])
 
 
 PROP.obligation('C01.varint', canaries=[
